@@ -103,39 +103,10 @@ def run(ck):
         ok = all(("'%s'" % t) in txt for t in tags)
         ck.ob("R1", "worker:%s" % wname, ok, mm.where(f), "%s does not distinguish the tags %s" % (wname, tags))
 
-    # ---------------------------------------------------------------- R2
+    # ---------------------------------------------------------------- R2 (per path of expr_range, temporaries substituted: sa/symval)
     fn = em.func("expr_range")
     ep = fn.args.args[0].arg
-    full = "ModularIntervals(%s.size, [(0, max_bound)])" % ep
-    ok = any(isinstance(n, ast.Assign) and norm(n.targets[0]) == "max_bound" and norm(n.value).replace(" ", "") == "(1<<%s.size)-1" % ep for n in walk_body(fn))
-    ck.ob("R2", "max_bound", ok, em.where(fn), "the full range must be [0, 2^size - 1]")
-    ok = False
-    for n in walk_body(fn):
-        if isinstance(n, ast.If) and "%s.is_id()" % ep in norm(n.test) and "%s.is_mem()" % ep in norm(n.test):
-            ok = any(isinstance(s, ast.Return) and norm(s.value) == full for s in n.body)
-    ck.ob("R2", "id-and-mem:full", ok, em.where(fn), "identifiers and memory must get the full range")
-    from sa.astutil import arm_when, positive_test
-    opb = [n for n in walk_body(fn) if isinstance(n, ast.If) and norm(positive_test(n)) == "%s.is_op()" % ep]
-    # what runs when the node is an operator (the body of the test, or what follows a negated guard), up to its last statement
-    op_region = arm_when(opb[0], True) if opb else []
-    ok = bool(op_region) and isinstance(op_region[-1], ast.Return) and norm(op_region[-1].value) == full
-    ck.ob("R2", "unmodelled-operator:full", ok, em.where(fn), "an operator without handler must fall through to the full range")
-    ok = bool(op_region) and any(isinstance(n, ast.If) and norm(positive_test(n)) == "%s.op in _op_range_handler" % ep
-                                 for n in walk_local(ast.Module(body=op_region, type_ignores=[])))
-    ck.ob("R2", "table-guard", ok, em.where(fn), "handlers must be applied only to operators present in the table")
-    ok = any(isinstance(n, ast.If) and norm(n.test) == "%s.is_cond()" % ep and any(
-        isinstance(s, ast.Return) and norm(s.value) == "expr_range(%s.src1).union(expr_range(%s.src2))" % (ep, ep) for s in n.body) for n in walk_body(fn))
-    ck.ob("R2", "cond:union", ok, em.where(fn), "a conditional's range must be the union of both arms' ranges")
-    ok = any(isinstance(n, ast.If) and norm(n.test) == "mod.intervals.length == 1" for n in walk_body(fn))
-    ck.ob("R2", "modulo:single-value-only", ok, em.where(fn), "modulo may be refined only when the modulus is a single value")
-    ok = any(isinstance(n, ast.Return) and norm(n.value).replace(" ", "") == "((arg&interval_mask)>>%s.start).size_update(%s.size)" % (ep, ep) for n in walk_body(fn)) and \
-        any(isinstance(n, ast.Assign) and norm(n.targets[0]) == "interval_mask" and norm(n.value).replace(" ", "") == "(1<<%s.start)-1^(1<<%s.stop)-1" % (ep, ep)
-            for n in walk_body(fn))
-    ck.ob("R2", "slice:mask-then-shift", ok, em.where(fn), "a slice's range must be ((arg & mask[start:stop]) >> start) resized")
-    ok = any(isinstance(n, ast.AugAssign) and isinstance(n.op, ast.BitOr) and norm(n.value) == "sub_range.size_update(%s.size) << shift" % ep for n in walk_body(fn))
-    ck.ob("R2", "compose:or-shifted", ok, em.where(fn), "a compose's range must OR each part resized and shifted to its position")
-    ok = any(isinstance(n, ast.Return) and norm(n.value) == "ModularIntervals(%s.size, [(int(%s), int(%s))])" % (ep, ep, ep) for n in walk_body(fn))
-    ck.ob("R2", "int:singleton", ok, em.where(fn), "a constant's range must be the singleton of its value")
+    _expr_range_paths(ck, em, fn, ep)
 
     # ---------------------------------------------------------------- R3 multi-wrap overflow branches are operand-independent
     # x*y and x<<s can exceed the modulus many times: once the overflow test holds, the extreme operands no longer bound the
@@ -315,3 +286,105 @@ def _structural_rules(ck):
             if isinstance(x, ast.BinOp) and isinstance(x.op, ast.RShift) and norm(x.right) == "expr.start":
                 ok = True
     ck.ob("R4", "expr_range:slice:shifted-by-start", ok, em.where(sl), "the range of a slice is not the argument's range shifted right by expr.start")
+
+
+
+def _expr_range_paths(ck, em, fn, ep):
+    """Each returning path of expr_range is classified by the node-kind facts it established and its value - with every temporary
+    substituted - compared with the reference range of that kind.  A value of a kind the rule does not know is reported as not
+    understood (exit 2); a range literal that is not the full range where the full range is due is a violation."""
+    from sa import symval
+    from sa.repo import AnalysisError
+    E = ep
+    FULL = "ModularIntervals(%s.size, [(0, (1 << %s.size) - 1)])" % (E, E)
+    RANGES = "[expr_range(arg) for arg in %s.args]" % E
+    where = em.where(fn)
+
+    def facts(conds):
+        out = {}
+
+        def add(t, v):
+            if isinstance(t, ast.BoolOp) and ((isinstance(t.op, ast.And) and v) or (isinstance(t.op, ast.Or) and not v)):
+                for x in t.values:
+                    add(x, v)
+            elif isinstance(t, ast.UnaryOp) and isinstance(t.op, ast.Not):
+                add(t.operand, not v)
+            elif isinstance(t, ast.BoolOp) and isinstance(t.op, ast.Or) and v:
+                out["|".join(sorted(norm(x) for x in t.values))] = True
+            else:
+                out[norm(t)] = v
+        for t, v in conds:
+            add(t, v)
+        return out
+    seen = set()
+    for p in symval.paths(fn.body, env={}):
+        if p.kind != "return" or p.value is None:
+            continue
+        f = facts(p.conds)
+        v = norm(p.value)
+
+        def T(x):
+            return f.get(x) is True
+        if T("%s.is_int()" % E):
+            seen.add("int")
+            ck.ob("R2", "int:singleton", v == "ModularIntervals(%s.size, [(int(%s), int(%s))])" % (E, E, E), where,
+                  "a constant's range must be the singleton of its value, got `%s`" % v[:80])
+        elif T("%s.is_id()" % E) or T("%s.is_mem()" % E) or T("%s.is_id()|%s.is_mem()" % (E, E)):
+            seen.add("idmem")
+            ck.ob("R2", "id-and-mem:full", v == FULL, where, "identifiers and memory must get the full range [0, 2^size - 1], got `%s`" % v[:80])
+        elif T("%s.is_slice()" % E):
+            seen.add("slice")
+            m1 = "(1 << %s.start) - 1 ^ (1 << %s.stop) - 1" % (E, E)
+            m2 = "(1 << %s.stop) - 1 ^ (1 << %s.start) - 1" % (E, E)
+            okv = v in ["((expr_range(%s.arg) & (%s)) >> %s.start).size_update(%s.size)" % (E, mk, E, E) for mk in (m1, m2)] + \
+                       ["(((%s) & expr_range(%s.arg)) >> %s.start).size_update(%s.size)" % (mk, E, E, E) for mk in (m1, m2)]
+            ck.ob("R2", "slice:mask-then-shift", okv, where, "a slice's range must be ((arg & mask[start:stop]) >> start) resized, got `%s`" % v[:120])
+        elif T("%s.is_compose()" % E):
+            seen.add("compose")
+            binds = [e_ for e_ in p.effects if isinstance(e_, ast.Call) and norm(e_.func) == "__bind__"]
+            loops = [e_ for e_ in p.effects if isinstance(e_, ast.Call) and norm(e_.func) == "__loop__"]
+            okv = False
+            for b_ in binds:
+                acc, val = norm(b_.args[0]), b_.args[1]
+                if isinstance(val, ast.BinOp) and isinstance(val.op, ast.BitOr):
+                    sides = [val.left, val.right]
+                    other = [x for x in sides if norm(x) != acc]
+                    if len(other) == 1 and isinstance(other[0], ast.BinOp) and isinstance(other[0].op, ast.LShift):
+                        part, sh = other[0].left, norm(other[0].right)
+                        if isinstance(part, ast.Call) and isinstance(part.func, ast.Attribute) and part.func.attr == "size_update" and norm(part.args[0]) == "%s.size" % E:
+                            # where the shift amount and the part's range come from is C10-R4 (offsets of iter_args / running sum)
+                            okv = True
+            first = any(isinstance(n, ast.Call) and isinstance(n.func, ast.Attribute) and n.func.attr == "size_update" and norm(n.args[0]) == "%s.size" % E
+                        and isinstance(n.func.value, ast.Subscript) and norm(n.func.value.slice) == "0" for n in walk_body(fn))
+            ck.ob("R2", "compose:or-shifted", okv and first, where,
+                  "a compose's range must be the OR of each part's range resized to the result and shifted to the part's own position")
+        elif T("%s.is_op()" % E):
+            if v.startswith("reduce("):
+                seen.add("op-table")
+                okv = T("%s.op in _op_range_handler" % E) and v == "reduce(_op_range_handler[%s.op], (sub_range for sub_range in %s[1:]), %s[0])" % (E, RANGES, RANGES)
+                if not okv and T("%s.op in _op_range_handler" % E) and v.startswith("reduce(_op_range_handler[%s.op]," % E) and RANGES in v:
+                    okv = True
+                ck.ob("R2", "table-guard", okv, where, "handlers must be applied only to operators present in the table, to the ranges of all the operands in order")
+            elif v == FULL:
+                seen.add("op-full")
+                ck.ob("R2", "unmodelled-operator:full", True, where, "")
+            elif v.startswith("ModularIntervals("):
+                seen.add("op-full")
+                ck.ob("R2", "unmodelled-operator:full", False, where, "an operator without handler must fall through to the full range, got `%s`" % v[:80])
+            elif v == "-expr_range(%s.args[0])" % E:
+                seen.add("neg")
+                ck.ob("R2", "unary-minus", T("%s.op == '-'" % E), where, "the negated range is returned for an operator that is not known to be '-'")
+            elif " % " in v:
+                seen.add("mod")
+                okv = T("%s.op == '%%'" % E) and T("%s[1].intervals.length == 1" % RANGES) and v == "%s[0] %% %s[1].intervals.hull()[0]" % (RANGES, RANGES)
+                ck.ob("R2", "modulo:single-value-only", okv, where, "modulo may be refined only when the modulus is a single value (dividend % that value)")
+            else:
+                raise AnalysisError("expr_range: operator path returns `%s`, a form this rule does not know" % v[:100])
+        elif T("%s.is_cond()" % E):
+            seen.add("cond")
+            okv = v in ("expr_range(%s.src1).union(expr_range(%s.src2))" % (E, E), "expr_range(%s.src2).union(expr_range(%s.src1))" % (E, E))
+            ck.ob("R2", "cond:union", okv, where, "a conditional's range must be the union of both arms' ranges, got `%s`" % v[:80])
+        else:
+            raise AnalysisError("expr_range: a returning path established no node kind (%s)" % sorted(f)[:6])
+    missing = set(["int", "idmem", "slice", "compose", "op-table", "op-full", "cond"]) - seen
+    ck.need(not missing, "expr_range: no returning path found for %s" % sorted(missing))
